@@ -65,7 +65,7 @@ fn map_checks<S: Suite>(ctx: &Ctx, ta: &TAlpha<S>) {
         },
     );
     // ---- pairs
-    let m = ctx.tier.pick(12usize, 24).min(us.len());
+    let m = ctx.tier.pick(12usize, 40).min(us.len());
     let step = (us.len() / m).max(1);
     let base: Vec<S::K> = us.iter().step_by(step).take(m).cloned().collect();
     let mut cases: Vec<PairCase<S::K>> = vec![];
@@ -85,7 +85,7 @@ fn map_checks<S: Suite>(ctx: &Ctx, ta: &TAlpha<S>) {
             }
         }
     }
-    let diag: Vec<S::K> = us.iter().take(ctx.tier.pick(40, 160)).cloned().collect();
+    let diag: Vec<S::K> = us.iter().take(ctx.tier.pick(40, 600)).cloned().collect();
     for u in &diag {
         cases.push(PairCase { u0: u.clone(), u1: u.clone(), class: "u0 = u1" });
         cases.push(PairCase { u0: u.clone(), u1: u.neg(), class: "u0 = -u1" });
@@ -190,9 +190,9 @@ fn map_checks<S: Suite>(ctx: &Ctx, ta: &TAlpha<S>) {
 }
 
 pub fn run(ctx: &Ctx) -> (&'static str, &'static str) {
-    let t1 = build_g1(ctx, ctx.tier.pick(6, 16), ctx.tier.pick(16, 128));
+    let t1 = build_g1(ctx, ctx.tier.pick(6, 32), ctx.tier.pick(16, 512));
     map_checks::<RG1>(ctx, &t1);
-    let t2 = build_g2(ctx, ctx.tier.pick(3, 8), ctx.tier.pick(16, 128));
+    let t2 = build_g2(ctx, ctx.tier.pick(3, 12), ctx.tier.pick(16, 256));
     map_checks::<RG2>(ctx, &t2);
     ctx.assume("the expected value uses the library's clear_h stage on the reference sum (C17 establishes clear_h = [h_eff] on the whole curve); a subset is additionally compared with a full big-integer [h_eff] multiplication");
     ctx.assume("isogeny coefficients are read from the library tables (C16 establishes that they define a homomorphism onto the target curve; RFC vectors in C06 pin the normalisation)");
